@@ -480,3 +480,70 @@ Proof.
   rewrite !hyp_le_true by (try lra; apply Req_le; field).
   cbn [andb q0 q1 q2]. repeat f_equal; field.
 Qed.
+
+(** * The fuel is only a bound on the recursion depth: a result, once produced, does not
+      depend on it (any scalar). *)
+Section Fuel.
+Context {T : Type} `{Scalar T}.
+
+Lemma fit_inside_fuel_S : forall k (c : CubicBez T) d b,
+  fit_inside k c d = Some b -> fit_inside (S k) c d = Some b.
+Proof.
+  induction k as [|k IH]; intros c d b Hf; [discriminate|].
+  change (fit_inside (S (S k)) c d) with
+    (if (fleb (v_hypot (to_vec2 (c2 c))) d) && (fleb (v_hypot (to_vec2 (c1 c))) d) then Some true
+     else if fltb d (v_hypot (v_scale (v_add (v_add (to_vec2 (c0 c)) (s_scale_v f3 (v_add (to_vec2 (c1 c)) (to_vec2 (c2 c))))) (to_vec2 (c3 c))) f0_125))
+          then Some false
+          else let '(l, r) := cubic_subdivide c in
+               match fit_inside (S k) l d with Some true => fit_inside (S k) r d | other => other end).
+  change (fit_inside (S k) c d) with
+    (if (fleb (v_hypot (to_vec2 (c2 c))) d) && (fleb (v_hypot (to_vec2 (c1 c))) d) then Some true
+     else if fltb d (v_hypot (v_scale (v_add (v_add (to_vec2 (c0 c)) (s_scale_v f3 (v_add (to_vec2 (c1 c)) (to_vec2 (c2 c))))) (to_vec2 (c3 c))) f0_125))
+          then Some false
+          else let '(l, r) := cubic_subdivide c in
+               match fit_inside k l d with Some true => fit_inside k r d | other => other end) in Hf.
+  destruct (_ && _); [exact Hf|]. destruct (fltb _ _); [exact Hf|].
+  destruct (cubic_subdivide c) as [l r].
+  destruct (fit_inside k l d) as [[|]|] eqn:El; try discriminate.
+  - rewrite (IH _ _ _ El). apply IH. exact Hf.
+  - rewrite (IH _ _ _ El). exact Hf.
+Qed.
+
+Lemma fit_inside_fuel_mono k j (c : CubicBez T) d b :
+  fit_inside k c d = Some b -> fit_inside (k + j) c d = Some b.
+Proof.
+  intros Hf. induction j as [|j IH]; [now rewrite Nat.add_0_r|].
+  rewrite Nat.add_succ_r. apply fit_inside_fuel_S. exact IH.
+Qed.
+End Fuel.
+
+(** the other direction: every point of the cubic has a spline point within [acc] *)
+Lemma spline_ok_covers (c : CubicBez R) acc n pts : spline_ok c acc n pts -> (1 <= n)%nat ->
+  forall s, 0 <= s <= 1 ->
+  exists i Q t, nth_error (quadspline_to_quads pts) i = Some Q /\ 0 <= t <= 1 /\
+                pt_distance (quad_eval Q t) (cubic_eval c s) <= acc.
+Proof.
+  intros (_ & Hl & Hd) Hn s Hs.
+  assert (HN : 0 < INR n) by (apply lt_0_INR; lia).
+  set (x := s * INR n).
+  assert (Hx : 0 <= x <= INR n) by (unfold x; split; [apply Rmult_le_pos; lra | nra]).
+  set (z := Flocq.Core.Raux.Zfloor x).
+  assert (Hz0 : (0 <= z)%Z) by (apply Flocq.Core.Raux.Zfloor_lub; simpl; lra).
+  assert (Hzx : IZR z <= x) by apply Flocq.Core.Raux.Zfloor_lb.
+  assert (Hxz : x < IZR z + 1) by apply Flocq.Core.Raux.Zfloor_ub.
+  assert (Hzn : (z <= Z.of_nat n)%Z).
+  { apply le_IZR. rewrite <- INR_IZR_INZ. lra. }
+  set (i := Nat.min (n - 1) (Z.to_nat z)).
+  assert (Hi : (i < n)%nat) by (unfold i; lia).
+  set (t := x - INR i).
+  assert (Ht : 0 <= t <= 1).
+  { unfold t, i. destruct (Z.eq_dec z (Z.of_nat n)) as [E|NE].
+    - rewrite Nat.min_l by lia. rewrite minus_INR by lia. simpl (INR 1).
+      rewrite E, <- INR_IZR_INZ in Hzx. lra.
+    - rewrite Nat.min_r by lia. rewrite INR_IZR_INZ, Z2Nat.id by lia. lra. }
+  destruct (nth_error (quadspline_to_quads pts) i) as [Q|] eqn:EQ.
+  - exists i, Q, t. split; [exact EQ|]. split; [exact Ht|].
+    replace s with ((INR i + t) / INR n); [eapply Hd; eassumption|].
+    unfold t, x. field. lra.
+  - apply nth_error_None in EQ. lia.
+Qed.
